@@ -181,10 +181,10 @@ def check_codec_width_relational(ctx: Ctx):
 
 class CropPointwise(Pointwise):
     def should_inline(self, f: Func) -> bool:
-        return f.name not in ("_get_bbox_nd",)
+        return f.name != self.prog.anchor_name("utils.numpy_utils:_get_bbox_nd")
 
     def external_call(self, name, args, kwargs, node):
-        if name.endswith("_get_bbox_nd"):
+        if self.prog.is_anchor(name, "utils.numpy_utils:_get_bbox_nd"):
             return Unknown("bbox")
         return super().external_call(name, args, kwargs, node)
 
@@ -253,8 +253,9 @@ def check_other_arithmetic(ctx: Ctx):
     analysed pointwise.  Metric kernels work on boolean masks and are excluded by module."""
     prog = ctx.prog
     n_sites = 0
+    covered = {prog.func(q).qual for q in COVERED}
     for f in prog.package_functions():
-        if f.qual in COVERED or f.module.rel.startswith("metrics") or f.module.rel.startswith("panoptica_statistics"):
+        if f.qual in covered or f.module.rel.startswith("metrics") or f.module.rel.startswith("panoptica_statistics"):
             continue
         for node in walk_no_nested(f.node):
             ops = None
